@@ -344,7 +344,8 @@ pub fn gen_reader_plan(r: &mut Rng, n: u64, boundaries: &[usize], hard: bool) ->
     };
     if r.chance(1, 2) {
         let k = 1 + r.usize_below(4);
-        let mut v: Vec<(u64, u8)> = (0..k).map(|_| (place(r), 1 + r.below(3) as u8)).collect();
+        // mostly 1..3 in a row, occasionally a long burst
+        let mut v: Vec<(u64, u8)> = (0..k).map(|_| (place(r), if r.chance(1, 10) { 4 + r.below(20) as u8 } else { 1 + r.below(3) as u8 })).collect();
         v.sort();
         v.dedup_by_key(|e| e.0);
         p.eintr = v;
